@@ -1,0 +1,34 @@
+// Copyright 2019 Samaritan Authors
+//
+// Licensed under the Apache License, Version 2.0 (the "License");
+// you may not use this file except in compliance with the License.
+// You may obtain a copy of the License at
+//
+//      http://www.apache.org/licenses/LICENSE-2.0
+//
+// Unless required by applicable law or agreed to in writing, software
+// distributed under the License is distributed on an "AS IS" BASIS,
+// WITHOUT WARRANTIES OR CONDITIONS OF ANY KIND, either express or implied.
+// See the License for the specific language governing permissions and
+// limitations under the License.
+
+//go:build verif
+// +build verif
+
+package redis
+
+// VerifUpstreamQuitClosed reports whether the quit latch of the *upstream
+// passed to a verifhook point (e.g. "upstream.loopRefreshSlots.picked") is
+// closed; ok is false when obj is not an upstream. Observation only.
+func VerifUpstreamQuitClosed(obj interface{}) (closed, ok bool) {
+	u, isU := obj.(*upstream)
+	if !isU || u == nil {
+		return false, false
+	}
+	select {
+	case <-u.quit:
+		return true, true
+	default:
+		return false, true
+	}
+}
